@@ -38,4 +38,5 @@ func main() {
 	genTerminfo()
 	genColors()
 	genC14()
+	genWScreen()
 }
